@@ -12,7 +12,7 @@ import (
 // checkOwnershipSeparator (R14.5): "symbol S belongs to package P" is decided on the name "P.S": the test must
 // include the separator, otherwise foo/bar claims the symbols of foo/barbaz and foo/bar/sub.
 func checkOwnershipSeparator(c *Ctx, sp *packages.Package) {
-	c.Rule("R14.5", "a symbol is attributed to a package by the prefix path+\".\" (separator included), never by the bare path", 1)
+	c.Rule("R14.5", "a symbol is attributed to a package by the prefix path+\".\" (separator included) followed by a bare identifier, never by the bare path", 1)
 	info := sp.TypesInfo
 	fd := findFunc(sp, "Package.ownsGlobal")
 	if fd == nil {
@@ -21,8 +21,17 @@ func checkOwnershipSeparator(c *Ctx, sp *packages.Package) {
 	}
 	c.nfuncs++
 	n := 0
+	restChecked := false
 	for _, call := range callsIn(fd.Body) {
-		if !isCallTo(info, call, "strings.HasPrefix") || len(call.Args) != 2 {
+		// the remainder after the prefix must be a bare identifier: a name of package path+".v2" also starts with path+"."
+		if (isCallTo(info, call, "strings.ContainsAny") || isCallTo(info, call, "strings.Contains") || isCallTo(info, call, "strings.IndexAny") || isCallTo(info, call, "strings.IndexByte") || isCallTo(info, call, "strings.ContainsRune")) && len(call.Args) == 2 {
+			if s, isC := constString(info, call.Args[1]); isC && strings.Contains(s, ".") {
+				restChecked = true
+			} else if tv, has := info.Types[call.Args[1]]; has && tv.Value != nil && tv.Value.ExactString() == "46" {
+				restChecked = true
+			}
+		}
+		if !(isCallTo(info, call, "strings.HasPrefix") || isCallTo(info, call, "strings.CutPrefix")) || len(call.Args) != 2 {
 			continue
 		}
 		n++
@@ -33,12 +42,15 @@ func checkOwnershipSeparator(c *Ctx, sp *packages.Package) {
 				ok = true
 			}
 		}
-		c.Check(ok, "R14.5", fmt.Sprintf("ssa.Package.ownsGlobal prefix test #%d", n), call.Pos(), "HasPrefix(name, path+\".\")",
+		c.Check(ok, "R14.5", fmt.Sprintf("ssa.Package.ownsGlobal prefix test #%d", n), call.Pos(), "prefix test against path+\".\"",
 			"the ownership test compares with "+exprStr(arg)+" (no separator): package foo/bar also claims the zero-sized globals of foo/barbaz and foo/bar/sub and defines them a second time")
 	}
 	if n == 0 {
-		c.Undecided("R14.5", "ssa.Package.ownsGlobal prefix test", fd.Pos(), "no strings.HasPrefix test found")
+		c.Undecided("R14.5", "ssa.Package.ownsGlobal prefix test", fd.Pos(), "no strings.HasPrefix/CutPrefix test found")
+		return
 	}
+	c.Check(restChecked, "R14.5", "ssa.Package.ownsGlobal remainder is an identifier", fd.Pos(), "what follows path+\".\" is tested to contain no further dot",
+		"after the prefix path+\".\" the rest of the name is not examined: package foo/bar also claims foo/bar.v2.X (a package whose path extends this one with a dot) and defines it a second time")
 }
 
 // varNameCallerExempt: callers of varName that pass a global of the package being compiled.
@@ -90,7 +102,9 @@ func checkLinknameAfterLoad(c *Ctx, cp *packages.Package) {
 
 func init() {
 	addMutant(Mutant{Prop: "C14", Name: "ownsglobal-bare-prefix", File: "ssa/decl.go",
-		Old: "return strings.HasPrefix(name, p.path+\".\")", New: "return strings.HasPrefix(name, p.path)", Expect: "R14.5"})
+		Old: "rest, ok := strings.CutPrefix(name, p.path+\".\")", New: "rest, ok := strings.CutPrefix(name, p.path)", Expect: "R14.5"})
+	addMutant(Mutant{Prop: "C14", Name: "ownsglobal-rest-unchecked", File: "ssa/decl.go",
+		Old: "return ok && !strings.ContainsAny(rest, \"./\")", New: "_ = rest\n\treturn ok", Expect: "R14.5 ssa.Package.ownsGlobal remainder"})
 	addMutant(Mutant{Prop: "C14", Name: "varname-before-load", File: "cl/import.go",
 		Old: "\tpkgTypes := p.ensureLoaded(v.Pkg.Pkg)\n\tpkg := p.pkg\n\tname, vtype, _ := p.varName(pkgTypes, v)", New: "\tpkgTypes := v.Pkg.Pkg\n\tpkg := p.pkg\n\tname, vtype, _ := p.varName(pkgTypes, v)\n\tp.ensureLoaded(pkgTypes)", Expect: "R14.6 cl.context.varOf"})
 }
